@@ -1245,3 +1245,9 @@ def check(ctx):
 
 def replay(ctx, rp):
     check(ctx)
+
+
+def search(ctx):
+    """proof obligations no longer build (e.g. tables_sane is false for the regenerated tables): the model and the driver
+    do not depend on Props, so the full differential run + property evaluation still looks for a concrete failing input"""
+    check(ctx)
